@@ -154,13 +154,27 @@ func c06Monitor(tbl []c06Entry, host string, qt uint16, o c06Obs, viaCheckHost b
 			maxLen = len(e.dom)
 		}
 	}
+	// An exact entry shadows wildcard entries whatever its kind: "name -> A"
+	// and "name -> AAAA" are exact entries for the name that let only that
+	// type pass (AGHTechDoc "pass A only": the other family is answered
+	// empty), so beside one of them (of EITHER family) no wildcard value may
+	// be answered for the name.
+	excExactAny := ""
+	for _, e := range tbl {
+		if d := strings.ToLower(e.dom); (e.ans == "A" || e.ans == "AAAA") && d == final && !c06IsWild(d) {
+			excExactAny = e.dom + " -> " + e.ans
+		}
+	}
 	for _, a := range o.ips {
-		found, precise := false, false
+		found, precise, exact := false, false, false
 		for _, e := range cand {
 			if ip, _ := netip.ParseAddr(e.ans); ip == a {
 				found = true
 				if anyExact && strings.ToLower(e.dom) == final || !anyExact && len(e.dom) == maxLen {
 					precise = true
+				}
+				if strings.ToLower(e.dom) == final {
+					exact = true
 				}
 			}
 		}
@@ -169,6 +183,9 @@ func c06Monitor(tbl []c06Entry, host string, qt uint16, o c06Obs, viaCheckHost b
 		}
 		if !precise {
 			return false, "precedence", fmt.Sprintf("address %s for %q comes from a shadowed (less specific) entry", a, final)
+		}
+		if excExactAny != "" && !exact {
+			return false, "precedence", fmt.Sprintf("address %s for %q comes from a wildcard entry although the exact entry %s exists (an exact entry shadows wildcard entries; an \"A\"/\"AAAA\" entry lets only that type pass)", a, final, excExactAny)
 		}
 	}
 	if o.reason == 1 && len(o.ips) > 0 {
@@ -240,6 +257,39 @@ func c06Monitor(tbl []c06Entry, host string, qt uint16, o c06Obs, viaCheckHost b
 		return false, "self-exception-ignored", "the entry \"name -> name\" (compared without letter case) did not pass the query on"
 	}
 	return true, "", ""
+}
+
+// c06ExcOtherFamilyShadows: the shape of the seeded change C06-H: for the
+// name an exact "A"/"AAAA" exception of the OTHER family, a wildcard value of
+// the requested family, and neither an exact value of the requested family,
+// an exception of the requested family nor a canonical name covering it.
+func c06ExcOtherFamilyShadows(tbl []c06Entry, name string, qt uint16) bool {
+	other, own := "AAAA", "A"
+	if qt == dns.TypeAAAA {
+		other, own = "A", "AAAA"
+	}
+	excOther, wildVal := false, false
+	for _, e := range tbl {
+		d := strings.ToLower(e.dom)
+		if !c06Matches(e.dom, name) {
+			continue
+		}
+		ip, err := netip.ParseAddr(e.ans)
+		switch {
+		case e.ans == other:
+			excOther = excOther || d == name && !c06IsWild(d)
+		case e.ans == own:
+			return false
+		case err != nil:
+			return false
+		case ip.Is4() == (qt == dns.TypeA):
+			if d == name && !c06IsWild(d) {
+				return false
+			}
+			wildVal = true
+		}
+	}
+	return excOther && wildVal
 }
 
 // c06IsCnameAns: is the answer text a canonical name (not an address, not "A"/"AAAA")?
@@ -319,6 +369,15 @@ func c06Prelude() []c06Table {
 		{label: "pre-chain-back-to-orig", entries: E("a.test", "x.test", "x.test", "y.x.test", "y.x.test", "a.test", "a.test", "1.1.1.1")},
 		{label: "pre-exc-after-cname", entries: E("a.test", "x.test", "x.test", "A", "x.test", "1.1.1.1", "x.test", "::1")},
 		{label: "pre-exc-other-family-shadows", entries: E("b.a.test", "AAAA", "*.a.test", "1.1.1.1", "*.a.test", "::1")},
+		// round 4 (seeded change C06-H): the exception of the other family
+		// is an exact entry and shadows wildcard values, also when the name
+		// is reached through a canonical name; an address VALUE of the other
+		// family is no entry for the requested type (the wildcard's value is
+		// answered: observed, "most specific for the question type")
+		{label: "pre-exc-other-family-shadows-a", entries: E("*.a.test", "::1", "b.a.test", "A", "*.test", "2001:db8::1")},
+		{label: "pre-exc-other-family-shadows-cname", entries: E("x.test", "b.a.test", "*.a.test", "1.1.1.1", "b.a.test", "AAAA")},
+		{label: "pre-exc-other-family-shadows-value-beside", entries: E("*.a.test", "1.1.1.1", "b.a.test", "AAAA", "b.a.test", "2.2.2.2")},
+		{label: "pre-other-family-value-beside-wild", entries: E("*.a.test", "1.1.1.1", "b.a.test", "::1")},
 		{label: "pre-wild-exc", entries: E("*.a.test", "A", "*.test", "1.1.1.1", "*.a.test", "::1")},
 		{label: "pre-dup", entries: E("a.test", "1.1.1.1", "a.test", "1.1.1.1", "*.a.test", "2.2.2.2", "*.a.test", "2.2.2.2", "b.a.test", "a.test", "b.a.test", "a.test")},
 		{label: "pre-two-wild-same", entries: E("*.a.test", "1.1.1.1", "*.a.test", "1.1.1.2", "*.a.test", "::1")},
@@ -395,7 +454,52 @@ func c06RandDom(r *vfRand) string {
 
 func c06RandTable(r *vfRand) (t c06Table) {
 	n := r.Intn(11)
-	switch r.Intn(4) {
+	switch r.Intn(5) {
+	case 4: // an exact entry of some kind beside wildcard values (round 4)
+		t.label = "rand-shadow"
+		under := map[string][]string{
+			"a.test": {"*.test"}, "x.test": {"*.test"},
+			"b.a.test": {"*.a.test", "*.test"}, "y.x.test": {"*.x.test", "*.test"},
+			"c.b.a.test": {"*.b.a.test", "*.a.test", "*.test"},
+		}
+		name := vfPick(r, []string{"a.test", "x.test", "b.a.test", "y.x.test", "c.b.a.test"})
+		typed := func(d string) string {
+			if r.Chance(1, 6) {
+				return c06MixCase(r, d)
+			}
+			return d
+		}
+		for _, w := range under[name] {
+			if r.Chance(2, 3) {
+				t.entries = append(t.entries, c06Entry{typed(w), vfPick(r, c06V4)})
+			}
+			if r.Chance(1, 2) {
+				t.entries = append(t.entries, c06Entry{typed(w), vfPick(r, c06V6)})
+			}
+		}
+		switch k := r.Intn(10); {
+		case k < 4:
+			t.entries = append(t.entries, c06Entry{typed(name), "AAAA"})
+		case k < 8:
+			t.entries = append(t.entries, c06Entry{typed(name), "A"})
+		case k < 9:
+			t.entries = append(t.entries, c06Entry{typed(name), vfPick(r, c06V6)})
+		default:
+			t.entries = append(t.entries, c06Entry{typed(name), vfPick(r, c06V4)})
+		}
+		if r.Chance(1, 4) { // a value of one family beside the exception
+			t.entries = append(t.entries, c06Entry{typed(name), vfPick(r, append(append([]string{}, c06V4...), c06V6...))})
+		}
+		if r.Chance(1, 2) { // the name is reached through a canonical name
+			alias := vfPick(r, []string{"test", "q.a.test", "z.test", "*.x.test", "x.test"})
+			if alias != name && !c06Matches(alias, name) {
+				t.entries = append(t.entries, c06Entry{alias, typed(name)})
+			}
+		}
+		for i, m := 0, r.Intn(3); i < m; i++ {
+			d := c06RandDom(r)
+			t.entries = append(t.entries, c06Entry{d, c06RandAnswer(r, d)})
+		}
 	case 0: // independent entries
 		t.label = "rand-uniform"
 		for i := 0; i < n; i++ {
@@ -658,6 +762,18 @@ func TestVerifC06(t *testing.T) {
 				}
 				if h != strings.ToLower(h) && o2.reason == 1 {
 					classes["q-uppercase-rewritten"] = true
+				}
+				if (qt == dns.TypeA || qt == dns.TypeAAAA) && o1.reason == 1 {
+					fin := h
+					if o1.canon != "" {
+						fin = o1.canon
+					}
+					if c06ExcOtherFamilyShadows(tb.entries, fin, qt) {
+						classes["shadow-exc-other-family"] = true
+						if o1.canon != "" {
+							classes["shadow-exc-other-family-via-cname"] = true
+						}
+					}
 				}
 
 				ok, kind, msg := c06Monitor(tb.entries, h, qt, o1, false)
